@@ -101,3 +101,47 @@ Proof. vm_compute. reflexivity. Qed.
 Example gate_rejects :
   unmarshal (fun _ => false) [1; 1;0;0;0; 0;0;0;0;0;0;240;63; 0;0;0;0;0;0;0;64] = Err EValidate.
 Proof. vm_compute. reflexivity. Qed.
+
+(* ================================================================== WKT part
+   Model: the lexer and recursive-descent parser of Model/WKT.v (written for C05 as the
+   transcription of geom/wkt_lexer.go and geom/wkt_parser.go); proofs in Proofs/WKT_total.v.
+   Quantified over ALL token lists / all texts of the model's alphabet (characters plus opaque
+   number symbols; strconv and text/scanner's number scanning are oracles there). *)
+From Coq Require Import String.
+From SF Require Import Model.WKT Proofs.WKT_total.
+
+(* nextGeometryTaggedText and everything below it never panics, whatever the tokens *)
+Theorem wkt_parse_no_panic : forall ts : list tok, is_panic (WKT.parse ts) = false.
+Proof. exact wkt_parse_no_panic_lemma. Qed.
+Print Assumptions wkt_parse_no_panic.
+
+(* every separator loop and every nested collection consumes a token per iteration: the fuel
+   error is unreachable *)
+Theorem wkt_parse_fuel_enough : forall ts : list tok, WKT.parse ts <> Err EFuel.
+Proof. exact wkt_parse_fuel_enough_lemma. Qed.
+Print Assumptions wkt_parse_fuel_enough.
+
+(* the tokens left for the EOF check are a suffix of the input; at least the tag was read *)
+Theorem wkt_parse_geom_consumes : forall (ts : list tok) (g : geomT N) (r : list tok),
+  parse_geom (S (List.length ts)) ts = Ok (g, r) -> exists used, ts = used ++ r /\ (1 <= List.length used)%nat.
+Proof. exact wkt_parse_geom_consumes_lemma. Qed.
+Print Assumptions wkt_parse_geom_consumes.
+
+(* lexer + parser + EOF check: UnmarshalWKT(s, NoValidate{}) on the model's alphabet *)
+Theorem unmarshal_wkt_no_panic : forall s : list ch,
+  is_panic (unmarshal_wkt s) = false /\ unmarshal_wkt s <> Err EFuel.
+Proof. exact unmarshal_wkt_no_panic_lemma. Qed.
+Print Assumptions unmarshal_wkt_no_panic.
+
+(* non-vacuity: a collection is parsed; unbalanced nesting and a missing number are errors *)
+Example wkt_ok_example :
+  is_ok (WKT.parse [T (L "GEOMETRYCOLLECTION"%string); T (L "("%string); T (L "POINT"%string); T (L "("%string); TNum 1; TNum 2;
+                    T (L ")"%string); T (L ","%string); T (L "MULTIPOINT"%string); T (L "("%string); T (L "EMPTY"%string); T (L ","%string); TNum 3; TNum 4;
+                    T (L ")"%string); T (L ")"%string)]) = true.
+Proof. vm_compute. reflexivity. Qed.
+Example wkt_err_examples :
+  WKT.parse (repeat (T (L "GEOMETRYCOLLECTION"%string)) 3 ++ repeat (T (L "("%string)) 40) = Err ESyntax /\
+  WKT.parse [T (L "GEOMETRYCOLLECTION"%string); T (L "("%string); T (L "GEOMETRYCOLLECTION"%string); T (L "("%string)] = Err EEOF /\
+  WKT.parse [T (L "POINT"%string); T (L "("%string); TNum 1; T (L ")"%string)] = Err ESyntax /\
+  WKT.parse [T (L "POINT"%string); T (L "("%string); T (L "nan"%string); TNum 1; T (L ")"%string)] = Err ESyntax.
+Proof. vm_compute. auto. Qed.
